@@ -407,6 +407,48 @@ func c15(c *Ctx) {
 				return true
 			})
 		}
+		// … or in a declared helper called from there (one level): the effect then sits where the call is
+		isEffect := func(n ast.Node) bool {
+			switch x := n.(type) {
+			case *ast.AssignStmt:
+				for _, l := range x.Lhs {
+					if isField(info, l, fIs) {
+						return true
+					}
+				}
+			case *ast.CallExpr:
+				if sel, ok := unparen(x.Fun).(*ast.SelectorExpr); ok && isField(info, sel.X, fProd) && (sel.Sel.Name == "Store" || sel.Sel.Name == "Swap") {
+					return true
+				}
+			}
+			return false
+		}
+		for _, f := range mix.All {
+			if mix.Outer(f) != fn {
+				continue
+			}
+			inspectNoLit(f.Body(), func(n ast.Node) bool {
+				call, ok := n.(*ast.CallExpr)
+				if !ok {
+					return true
+				}
+				h := mix.declByObj(callee(info, call))
+				if h == nil || h == fn || h.Body() == nil {
+					return true
+				}
+				has := false
+				inspectNoLit(h.Body(), func(m ast.Node) bool {
+					if isEffect(m) {
+						has = true
+					}
+					return !has
+				})
+				if has {
+					effects = append(effects, Site{f, call})
+				}
+				return true
+			})
+		}
 		good := len(effects) >= 2
 		for _, e := range effects {
 			ok, recv := mix.onceAncestor(e.F)
